@@ -332,7 +332,7 @@ impl Check for C01 {
         }
         let g = Gen::new(&world, eo);
         let (query, feats, _tys) = g.gen_query(t, &qo);
-        Case { world, query, feats: feats.into_iter().map(|s| s.to_string()).collect(), columnar_off: cfg.avoid_known && cfg.avoiding("c01.trigger.columnar_path"), excluded, raw: None }
+        Case { world, query, feats: feats.into_iter().map(|s| s.to_string()).collect(), columnar_off: false, excluded, raw: None }
     }
     fn render(&self, c: &Case) -> String {
         if let Some(r) = &c.raw {
@@ -399,7 +399,9 @@ impl Check for C01 {
         let mut trig = trig;
         if vibesql_executor::verif_hooks::columnar_taken() > taken0 {
             obs.class("columnar_path_taken");
-            trig.push("columnar_path");
+            // the columnar path's SUM over integers is a DOUBLE (pinned by unit tests): next to
+            // integers it sorts, de-duplicates and intersects as a different value
+            trig.push(if vsql.contains("SUM(") { "columnar_int_sum" } else { "columnar_path" });
         }
         let (exp, got) = match (reference, got) {
             (Err(_), Err(_)) => {
